@@ -30,14 +30,14 @@ let ocaml_string (s : M.string) : String.t =
 let all_fixed : M.fixes =
   { M.fx_direct_all = true; fx_redelivered = true; fx_delete_checks_first = true; fx_noack_total_once = true;
     fx_get_count = true; fx_closeok_releases = true; fx_excl_owner = true; fx_clear_current = true;
-    fx_not_impl = true; fx_empty_body = true; fx_discard_closing = true; fx_nowait = true; fx_stage = true; fx_reopen_resets = true }
+    fx_not_impl = true; fx_empty_body = true; fx_discard_closing = true; fx_nowait = true; fx_stage = true; fx_reopen_resets = true; fx_chan_open = true }
 
 let parse_fixes (s : String.t) : M.fixes =
   (* 13 characters 0/1 in the field order above *)
   let g i = i < String.length s && s.[i] = '1' in
   { M.fx_direct_all = g 0; fx_redelivered = g 1; fx_delete_checks_first = g 2; fx_noack_total_once = g 3;
     fx_get_count = g 4; fx_closeok_releases = g 5; fx_excl_owner = g 6; fx_clear_current = g 7;
-    fx_not_impl = g 8; fx_empty_body = g 9; fx_discard_closing = g 10; fx_nowait = g 11; fx_stage = g 12; fx_reopen_resets = g 13 }
+    fx_not_impl = g 8; fx_empty_body = g 9; fx_discard_closing = g 10; fx_nowait = g 11; fx_stage = g 12; fx_reopen_resets = g 13; fx_chan_open = g 14 }
 
 let () =
   let rabbit = ref true and rollback = ref true and fx = ref all_fixed and ops = ref [] and in_session = ref false in
